@@ -39,6 +39,9 @@ class GetterProfile(StoreProfile):
         ents = run.store.listing(cfg) or run.store.listing(m.default_config)
         if not ents:
             return None
+        q = run.scratch.setdefault("queue", [])
+        if q:
+            return q.pop(0)
         r = rng.random()
         if r < 0.05:
             return {"op": "restart"}
@@ -49,6 +52,22 @@ class GetterProfile(StoreProfile):
         if r < 0.30:
             s = rng.choice(ents)
             how = rng.choice(["set", "update"])
+            if rng.random() < 0.4:
+                # an update that keeps the sidecar's byte size (0 <-> 1, "x" <-> "y"), right after it was read
+                cur = run.store.data(cfg, s) or {}
+                flips = {k: ({0: 1, 1: 0, "x": "y", "y": "x"}[v]) for k, v in cur.items()
+                         if not isinstance(v, bool) and v in (0, 1, "x", "y")}
+                data = dict(list(flips.items())[:1]) if flips else {"frames": 0}
+                run.probes["same_size_updates"] += 1 if flips else 0
+                g = {"op": "get", "party": "GP:" + cfg, "s": s, "attributes": None, "enc": "enc_str"}
+                if not flips:
+                    # seed value, read, flip, read again
+                    run.scratch.setdefault("queue", []).extend(
+                        [dict(g), {"op": "write", "cfg": cfg, "sid": s, "how": how, "data": {"frames": 1}}, dict(g)])
+                    run.probes["same_size_updates"] += 1
+                    return {"op": "write", "cfg": cfg, "sid": s, "how": how, "data": data}
+                run.scratch.setdefault("queue", []).extend([{"op": "write", "cfg": cfg, "sid": s, "how": how, "data": data}, dict(g)])
+                return dict(g)
             return {"op": "write", "cfg": cfg, "sid": s, "how": how, "data": gen_data(rng, nmax=2)}
         base = rng.choice(ents)
         if rng.random() < 0.1:
